@@ -3126,6 +3126,21 @@ func genFuncs(l *loaded, want []string) []byte {
 		b.WriteString(coqString(k))
 	}
 	b.WriteString("]%string.\n")
+	// methods that write through their (pointer) receiver, as decided by the translator's syntactic pass
+	var writers []string
+	for _, k := range t.emitted {
+		if sg := t.sigs[k]; sg != nil && sg.ptrRecv {
+			writers = append(writers, k)
+		}
+	}
+	b.WriteString("Definition receiver_writing_methods : list string := [")
+	for i, k := range writers {
+		if i > 0 {
+			b.WriteString("; ")
+		}
+		b.WriteString(coqString(k))
+	}
+	b.WriteString("]%string.\n")
 	b.WriteString("Definition untranslatable_functions : list (string * string * string) := [")
 	for i, f := range t.failed {
 		if i > 0 {
